@@ -459,13 +459,20 @@ def guards_of(target, root, sym):
                         # `if A {exit} else if B {exit}` (no final else): c runs only if !A and !B
                         chain_conds = []
                         cur = s0
+                        handled = False
                         while cur.get("k") == "If" and diverges(cur["then"]):
                             chain_conds.append(cur["cond"])
                             if cur.get("else") is None:
                                 for cc in chain_conds:
                                     out.append(("if", sym(cc), False))
+                                handled = True
                                 break
                             cur = strip(cur["else"])
+                        if not handled:
+                            # `if A { if B { exit } }` : c runs only if !(A && B)
+                            ec = exit_condition(s0, sym)
+                            if ec is not None and ec != ("lit", True):
+                                out.append(("if", ec, False))
                 if k == "If":
                     if c is p.get("then"):
                         for a in conj(sym(p["cond"])):
@@ -486,6 +493,47 @@ def guards_of(target, root, sym):
                     out.append(("if", sym(p["l"]), False))
             return out
     return None
+
+
+def exit_condition(n, sym):
+    """Condition under which statement n leaves the enclosing block (only for pure nests of `if` without else), else None."""
+    n = strip(n)
+    if n.get("k") in ("Continue", "Break", "Ret"):
+        return ("lit", True)
+    if n.get("k") == "Block":
+        sts = list(n.get("stmts") or [])
+        if n.get("expr") is not None:
+            sts.append(n["expr"])
+        if len(sts) != 1:
+            return None
+        return exit_condition(sts[0], sym)
+    if n.get("k") == "If" and n.get("else") is None:
+        inner = exit_condition(n["then"], sym)
+        if inner is None:
+            return None
+        c = sym(n["cond"])
+        return c if inner == ("lit", True) else ("bin", "&&", c, inner)
+    return None
+
+
+def resolve_consts(t, F):
+    """Replace references to small scalar consts (int/char/bool) by their const-evaluated value."""
+    if not isinstance(t, tuple) or F is None:
+        return t
+    if len(t) == 2 and t[0] == "const" and t[1] in F.consts:
+        c = F.consts[t[1]]
+        ty = c["ty"]
+        v = c.get("value") or {}
+        if "bytes" in v:
+            b = bytes.fromhex(v["bytes"])
+            if ty == "char":
+                return ("lit", chr(int.from_bytes(b, "little")))
+            if ty == "bool":
+                return ("lit", bool(b[0]))
+            if ty in ("u8", "u16", "u32", "usize", "i8", "i16", "i32", "isize") or (ty in ("u64", "i64") and not t[1].startswith("chess::zobrist")):
+                return ("lit", int.from_bytes(b, "little", signed=ty.startswith("i")))
+        return t
+    return tuple(resolve_consts(x, F) if isinstance(x, tuple) else x for x in t)
 
 
 def diverges(b):
